@@ -8,7 +8,7 @@ W=/tmp/cf_$P
 git -C /repo worktree remove --force $W >/dev/null 2>&1
 git -C /repo worktree add -q --detach $W HEAD || exit 2
 cd $W
-cp $D/zz_demo_test.go . 
+cp $D/zz_demo_test.go .
 go test -vet=off -count=1 -run 'TestDemo' . > $D/confirm_clean.log 2>&1; A=$?
 git apply $D/patch.diff || { echo "patch does not apply"; git -C /repo worktree remove --force $W; exit 2; }
 go build ./... > $D/confirm_build.log 2>&1; B=$?
